@@ -76,6 +76,11 @@ func specMentions(s *FuncSpec, p string) bool {
 		if l.Decreases != nil && hasTag(l.Decreases.Tags, p) {
 			return true
 		}
+		for _, c := range l.Increases {
+			if hasTag(c.Tags, p) {
+				return true
+			}
+		}
 	}
 	for _, b := range s.Before {
 		if hasTag(b.C.Tags, p) {
